@@ -292,6 +292,55 @@ func (e *Engine) PackageScans() *UnitResult {
 		}
 		add("writes.classified", []string{"C03"}, len(bad) == 0, "every field written after construction is lock-guarded, atomic or a declared configuration setter field", bad)
 	}
+	// closure facts: a literal whose contract states `fact`s about its captured
+	// variables relies on those variables not being reassigned once the literal
+	// exists: every captured variable is written at most once outside the
+	// literal (its initialisation) and never inside it
+	{
+		var bad []string
+		any := false
+		for _, fn := range funcs {
+			fs := e.spec.Funcs[relName(fn)]
+			if fs == nil || len(fs.Facts) == 0 || fn.Parent() == nil {
+				continue
+			}
+			any = true
+			for _, b := range fn.Parent().Blocks {
+				for _, in := range b.Instrs {
+					mc, ok := in.(*ssa.MakeClosure)
+					if !ok || mc.Fn != fn {
+						continue
+					}
+					for i, bind := range mc.Bindings {
+						al, ok := bind.(*ssa.Alloc)
+						if !ok {
+							continue // a captured variable of an outer literal: checked there
+						}
+						stores := 0
+						for _, r := range *al.Referrers() {
+							if st, ok := r.(*ssa.Store); ok && st.Addr == al {
+								stores++
+							}
+						}
+						inner := 0
+						if i < len(fn.FreeVars) {
+							for _, r := range *fn.FreeVars[i].Referrers() {
+								if st, ok := r.(*ssa.Store); ok && st.Addr == fn.FreeVars[i] {
+									inner++
+								}
+							}
+						}
+						if stores > 1 || inner > 0 {
+							bad = append(bad, fmt.Sprintf("%s captured by %s is assigned %d time(s) in %s and %d time(s) in the literal", al.Comment, relName(fn), stores, relName(fn.Parent()), inner))
+						}
+					}
+				}
+			}
+		}
+		if any {
+			add("closure.captures.stable", []string{"C09"}, len(bad) == 0, "variables captured by literals whose contracts state facts about them are assigned once, before the literal is created", bad)
+		}
+	}
 	// options: every literal of type func(*EventBus) created by a With* function
 	// must be under contract (closed world for the Option callback contract)
 	if len(e.spec.Callbacks) > 0 && e.spec.Callbacks["Option"] != nil {
